@@ -374,6 +374,9 @@ class Translator:
         for f in self.funcs:
             q = (f.cls + "::" if f.cls else "") + f.name
             is_constexpr = f.item is not None and re.match(r"\s*(static\s+|inline\s+)*constexpr\b", f.item.text) is not None
+            if f.body is not None and getattr(f, "inline_in_class", False) and f.tmpl is not None:
+                self.fire("member function template dropped (its uses are rewritten by the recipe)")
+                continue
             if f.body is not None and (self.wanted(q) or (is_constexpr and not f.cls)):
                 if is_constexpr and not self.wanted(q):
                     self.fire("constexpr function kept (used by constant definitions)")
@@ -519,6 +522,10 @@ class Translator:
         if mo and m.rstrip().endswith(";"):
             return self.parse_class(it, t, m, mo)
         if re.match(r"(union|struct|enum)\b", m) and "{" in m and not re.search(r"\)\s*(const\s*)?\{", m.split("{")[0] + "{"):
+            um = re.match(r"(union)\s+(\w+)\s*\{", m)
+            if um:
+                self.fire("named union: typedef added")
+                return "text", self.decl_fix(t) + "\ntypedef union %s %s;" % (um.group(2), um.group(2))
             return "text", self.decl_fix(t)
         # function definition or declaration; Class<Args>::member -> Class::member first
         t_n = re.sub(r"\b(\w+)\s*<[^<>;{}()]*(?:<[^<>]*>[^<>;{}()]*)?>\s*::", r"\1::", t)
